@@ -249,6 +249,13 @@ def build_driver(family, timeout=900):
     zut = os.path.join(VERIF, 'ocaml', 'zutil.ml')
     exe = os.path.join(d, 'driver')
     cone = coq_cone(f'Extract_{family}.v')
+    # the compiled dependencies must be those of the current sources (gen/*.v may just have been regenerated)
+    deps = [c[:-2] + '.vo' for c in cone if c != f'Extract_{family}.v']
+    with Lock('coq'):
+        okdeps, mlog = coq_make(deps, timeout=timeout)
+    if not okdeps:
+        m = re.findall(r'File "\./([^"]+)", line (\d+)[^\n]*\n((?:.+\n){1,8})', mlog)
+        return None, 'model files do not compile:\n' + ('\n'.join(f'{f}:{l}: {t.strip()[:500]}' for f, l, t in m[:4]) or mlog[-2000:])
     key = tree_hash([os.path.join(COQ, c) for c in cone] + [drv, zut])
     stamp = os.path.join(d, 'stamp')
     if os.path.exists(exe) and os.path.exists(stamp) and open(stamp).read() == key:
